@@ -220,7 +220,13 @@ def c15_dirs(ctx):
     c17_6(ctx)
 
 
-RULES = [c15_1, c15_2, c15_3, c15_dirs]
+def c15_state(ctx):
+    """Per-statement / per-lookup properties presuppose that nothing is remembered between statements beyond the reviewed state."""
+    from rules.shared import state_discipline
+    state_discipline(ctx, ('bespokeasm.assembler', 'bespokeasm.expression', 'bespokeasm.utilities'))
+
+
+RULES = [c15_1, c15_2, c15_3, c15_dirs, c15_state]
 
 _M = 'assembler/model/__init__.py'
 MUTANTS = [
